@@ -64,6 +64,77 @@ def _expr(src, e, vars_):
         return f'({_expr(src, e.left, vars_)} {op} {_expr(src, e.right, vars_)})'
     raise Refuse(f'expression {ast.unparse(e)[:50]}')
 
+# ------------------------------------------------------------------------------------------- straight-line numeric functions
+class _FnTr:
+    """translate a straight-line numeric function (planck_radiance, planck_exitance) into a Lean definition over any K:
+    assignments of rational expressions in the parameters and the module constants H, C, K, `**` by a small natural literal,
+    `np.exp(·)` (-> the uninterpreted `expf`), `np.pi` (-> `pi`), the unit-table calls `Unit(waveunit).to('meter')`,
+    `Meter().to(waveunit)`, `<FluxClass>().to(flux, valueunit, wave)`, and one final `if valueunit == 'lit': return … else: return …`"""
+    def __init__(self, src, cls_of, wunits, funits, aliases):
+        self.src, self.cls_of, self.W, self.F, self.aliases = src, cls_of, wunits, funits, aliases
+        self.unit_of_cls = {c: u for u, c in cls_of.items()}
+
+    def wname(self, lit):
+        for u in self.W:
+            if lit in self.aliases[u]: return u
+        raise Refuse(f'wave unit literal {lit!r}')
+
+    def expr(self, e, env):
+        if isinstance(e, ast.Constant): return lean_q(_lit(self.src, e))
+        if isinstance(e, ast.Name):
+            if e.id in env: return env[e.id]
+            raise Refuse(f'name {e.id}')
+        if isinstance(e, ast.Attribute) and ast.unparse(e) == 'np.pi': return 'pi'
+        if isinstance(e, ast.BinOp):
+            if isinstance(e.op, ast.Pow):
+                if not (isinstance(e.right, ast.Constant) and isinstance(e.right.value, int) and 1 <= e.right.value <= 8): raise Refuse('power by a non-literal')
+                b = self.expr(e.left, env)
+                return '(' + ' * '.join([b] * e.right.value) + ')'
+            op = {ast.Mult: '*', ast.Div: '/', ast.Add: '+', ast.Sub: '-'}.get(type(e.op))
+            if op is None: raise Refuse(f'operator {type(e.op).__name__}')
+            return f'({self.expr(e.left, env)} {op} {self.expr(e.right, env)})'
+        if isinstance(e, ast.Call):
+            f = ast.unparse(e.func)
+            if f == 'np.exp' and len(e.args) == 1 and not e.keywords: return f'(expf {self.expr(e.args[0], env)})'
+            # Unit(waveunit).to('meter')  /  Meter().to(waveunit)
+            if isinstance(e.func, ast.Attribute) and e.func.attr == 'to' and isinstance(e.func.value, ast.Call) and not e.keywords:
+                inner = e.func.value
+                who = ast.unparse(inner.func)
+                if who == 'Unit' and len(inner.args) == 1 and ast.unparse(inner.args[0]) == 'waveunit' and len(e.args) == 1 and isinstance(e.args[0], ast.Constant):
+                    return f'(waveTo wu .{self.wname(e.args[0].value)})'
+                if who in self.unit_of_cls and not inner.args:
+                    u = self.unit_of_cls[who]
+                    if u in self.W and len(e.args) == 1 and ast.unparse(e.args[0]) == 'waveunit': return f'(waveTo .{u} wu)'
+                    if u in self.F and len(e.args) == 3 and ast.unparse(e.args[1]) == 'valueunit':
+                        return f'(fluxTo .{u} vu {self.expr(e.args[0], env)} {self.expr(e.args[2], env)} H C)'
+            raise Refuse(f'call {ast.unparse(e)[:60]}')
+        raise Refuse(f'expression {ast.unparse(e)[:60]}')
+
+    def fn(self, node, lean_name):
+        a = node.args
+        if [x.arg for x in a.args] != ['wave', 'temp', 'waveunit', 'valueunit']: raise Refuse(f'{node.name}: signature')
+        env = {'wave': 'wave', 'temp': 'temp', 'H': 'H', 'C': 'C', 'K': 'kB'}
+        lines, k = [], 0
+        body = [st for st in node.body if not (isinstance(st, ast.Expr) and isinstance(st.value, ast.Constant))]
+        for st in body[:-1]:
+            if not (isinstance(st, ast.Assign) and len(st.targets) == 1 and isinstance(st.targets[0], ast.Name)): raise Refuse(f'{node.name}: statement {ast.unparse(st)[:60]}')
+            k += 1
+            v = f'{st.targets[0].id}_{k}'
+            lines.append(f'  let {v} := {self.expr(st.value, env)}')
+            env = dict(env, **{st.targets[0].id: v})
+        last = body[-1]
+        if not (isinstance(last, ast.If) and isinstance(last.test, ast.Compare) and ast.unparse(last.test.left) == 'valueunit' and isinstance(last.test.ops[0], ast.Eq)
+                and isinstance(last.test.comparators[0], ast.Constant) and last.test.comparators[0].value in self.F
+                and len(last.body) == 1 and isinstance(last.body[0], ast.Return) and len(last.orelse) == 1 and isinstance(last.orelse[0], ast.Return)):
+            raise Refuse(f'{node.name}: final valueunit split')
+        u = last.test.comparators[0].value
+        lines.append('  match vu with')
+        lines.append(f'  | .{u} => {self.expr(last.body[0].value, env)}')
+        lines.append(f'  | _ => {self.expr(last.orelse[0].value, env)}')
+        head = (f'def {lean_name} {{K : Type}} [NatCast K] [Mul K] [Div K] [Add K] [Sub K] (expf : K → K) (pi H C kB : K)\n'
+                f'    (wave temp : K) (wu : WUnit) (vu : FUnit) : K :=')
+        return head + '\n' + '\n'.join(lines)
+
 def generate(repo):
     path = os.path.join(repo, SRC)
     src = open(path).read()
@@ -142,6 +213,11 @@ def generate(repo):
     A('\n/-- module constants `H`, `C`, `K` of lentil/radiometry.py as exact rationals of their decimal literals -/')
     for k in ('H', 'C', 'K'):
         A(f'def const{k} {{K : Type}} [NatCast K] [Div K] : K := {lean_q(consts[k])}')
+    tr = _FnTr(src, cls_of, wunits, funits, aliases)
+    A('\n/-- translated from `planck_radiance` (its own source lines; `np.exp` -> `expf`, `np.pi` -> `pi`, unit calls -> the tables above) -/')
+    A(tr.fn(funcs['planck_radiance'], 'planckRadiance'))
+    A('\n/-- translated from `planck_exitance` (its own source lines) -/')
+    A(tr.fn(funcs['planck_exitance'], 'planckExitance'))
     notes = {'wave': {f'{a}->{b}': str(q) for (a, b), q in wave.items()}, 'aliases': aliases,
              'constants': {k: str(v) for k, v in consts.items()}}
     return '\n'.join(L) + '\n', notes
